@@ -12,11 +12,11 @@
       measurable value nor a value of the schema's type in the payload and return without an issue and
       without calling anything (`vac p`); typed `Refine` wrappers convert the pointer and do run;
       when-guards are user functions and do run;
-    * if this pass ends without an issue its value is returned and the regular pass is skipped;
-      otherwise the regular pass runs from scratch on the original value (callbacks are called again).
-
-  So a vacuous check attached before the first overwrite is never evaluated when everything after it
-  passes: `Slice[int](Int()).Max(0).Overwrite(id).Parse([]int{7})` succeeds.
+    * up to /repo 49e6e91 (`legacyRunChecksC`): if this pass ended without an issue its value was
+      returned and the regular pass was skipped, so a vacuous check attached before the first overwrite
+      was never evaluated: `Slice[int](Int()).Max(0).Overwrite(id).Parse([]int{7})` succeeded;
+    * since 49e6e91 (`runChecksC`): the regular pass runs first and decides; the pass over the pointer
+      runs only after it accepted and only supplies the result value (callbacks are called again).
 -/
 import Gozod.Model.Checks
 namespace Gozod
@@ -43,8 +43,8 @@ def firstPassC (env : Env P O T V) (vac : P → Bool) :
       else if abort then ⟨val, iss ++ [i], log ++ [.when i val, .check i val]⟩
       else firstPassC env vac (i + 1) cs val raw (iss ++ [i]) (log ++ [.when i val, .check i val])
 
-/-- The checks of a container schema applied to an input (value or pointer alike). -/
-def runChecksC (env : Env P O T V) (vac : P → Bool) (cs : List (Check P O)) (v : V) : Run V :=
+/-- Up to /repo 49e6e91: the extra pass ran first and was taken when it had no issue. -/
+def legacyRunChecksC (env : Env P O T V) (vac : P → Bool) (cs : List (Check P O)) (v : V) : Run V :=
   if hasOverwrite cs then
     let fp := firstPassC env vac 0 cs v true [] []
     if fp.issues = [] then ⟨fp.val, [], fp.log⟩                    -- first pass accepted: regular pass skipped
@@ -52,6 +52,18 @@ def runChecksC (env : Env P O T V) (vac : P → Bool) (cs : List (Check P O)) (v
       let r := runChecks env cs v
       ⟨r.val, r.issues, fp.log ++ r.log⟩
   else runChecks env cs v
+
+/-- The checks of a container schema applied to an input (value or pointer alike), since /repo 49e6e91:
+    the regular pass decides; when it accepts and an overwrite is attached the pass over the pointer
+    runs afterwards and supplies the result when it has no issue. -/
+def runChecksC (env : Env P O T V) (vac : P → Bool) (cs : List (Check P O)) (v : V) : Run V :=
+  let r := runChecks env cs v
+  if hasOverwrite cs then
+    if r.issues ≠ [] then r
+    else
+      let fp := firstPassC env vac 0 cs v true [] []
+      if fp.issues = [] then ⟨fp.val, [], r.log ++ fp.log⟩ else ⟨r.val, [], r.log ++ fp.log⟩
+  else r
 
 /-- No vacuous check is attached before the first overwrite. -/
 def vacFree (vac : P → Bool) : List (Check P O) → Bool
